@@ -36,7 +36,7 @@ if phase == "confirm":
         sh(f"git -C /repo worktree remove --force {wt}")
         json.dump(res, open(f"{src}/verify.json", "w"), indent=1)
         sys.exit(1)
-    sh(f"git diff > {src}/patch_rebased.diff", cwd=wt)
+    sh(f"git diff HEAD > {src}/patch_rebased.diff", cwd=wt)
     t0 = time.time()
     rc, out = sh("cargo test --workspace --no-fail-fast --offline 2>&1 | grep -E '^test result|FAILED|^error' | sort | uniq -c", cwd=wt)
     passed = sum(int(m.group(1)) * int(m.group(2)) for m in re.finditer(r"\s*(\d+) test result: ok\. (\d+) passed", out))
